@@ -433,6 +433,11 @@ def rule_r10(chk, rid="C05-R10"):
     chk.saw(m, "Flags.from_kwargs")
     names = ("linear", "flat", "deterministic")
     bits = {"LINEAR": 1, "FLAT": 2, "DETERMINISTIC": 4}
+    consts = fin.module_constants(m)
+
+    class _Enum(fin.FinObj):
+        def __getitem__(self, k):
+            return getattr(self, k)
     ABSENT = object()
     # from_kwargs
     bad = None
@@ -441,8 +446,8 @@ def rule_r10(chk, rid="C05-R10"):
         for vals in itertools.product((ABSENT, None, False, True), repeat=3):
             for prefix in ("", "is_"):
                 kw = {prefix + nm: v for nm, v in zip(names, vals) if v is not ABSENT}
-                cls = fin.FinObj(DEFAULT=0, **bits)
-                got = fin.run_function(g, {params(g)[0]: cls, g.args.kwarg.arg: kw})
+                cls = _Enum(DEFAULT=0, **bits)
+                got = fin.run_function(g, {params(g)[0]: cls, g.args.kwarg.arg: kw}, None, consts)
                 want = sum(bits[nm.upper()] for nm, v in zip(names, vals) if v is True)
                 n += 1
                 if got != want:
@@ -464,7 +469,7 @@ def rule_r10(chk, rid="C05-R10"):
                 me = fin.FinObj(**{"is_" + nm: o for nm, o in zip(names, own)}, is_nonlinear=not own[0], is_nonflat=not own[1], is_stochastic=not own[2])
                 got = {}
                 klass = fin.FinObj(from_kwargs=lambda **k: got.update(k) or "flags")
-                fin.run_function(f, {params(f)[0]: me, f.args.kwarg.arg: kw}, funcs={"type": lambda o: klass})
+                fin.run_function(f, {params(f)[0]: me, f.args.kwarg.arg: kw}, funcs={"type": lambda o: klass}, env=consts)
                 n += 1
                 for nm, o, v in zip(names, own, vals):
                     want = o if v in (ABSENT, None) else v
